@@ -50,3 +50,38 @@ fn t01_timestamp_is_whole_seconds_of_nanoseconds() {
         assert_eq!(Timestamp::from_seconds(s).seconds(), s);
     }
 }
+
+/// Conformance TEST for the nanosecond model of shim/base.rs (secs, sub): nanos == secs*10^9 + sub with sub < 10^9, `plus_seconds` /
+/// `minus_seconds` keep the sub-second part, whole Timestamps compare by their nanoseconds, `minus_seconds` aborts exactly when secs < s.
+#[test]
+fn t01_timestamp_nanosecond_model() {
+    let ns: Vec<u64> = vec![0, 1, 999_999_999, 1_000_000_000, 1_000_000_001, 1_571_797_419_879_305_533, 1_571_797_420_000_000_000, u64::MAX / 4];
+    for &a in ns.iter() {
+        let t = Timestamp::from_nanos(a);
+        let (secs, sub) = (a / 1_000_000_000, a % 1_000_000_000);
+        assert_eq!(t.seconds(), secs);
+        assert_eq!(t.subsec_nanos(), sub);
+        assert_eq!(t.nanos(), secs * 1_000_000_000 + sub);
+        for s in [0u64, 1, 59, 900, 3600] {
+            let p = t.plus_seconds(s);
+            assert_eq!((p.seconds(), p.subsec_nanos()), (secs + s, sub));
+            let r = std::panic::catch_unwind(|| t.minus_seconds(s));
+            if secs >= s {
+                let m = r.expect("minus_seconds must not abort when secs >= s");
+                assert_eq!((m.seconds(), m.subsec_nanos()), (secs - s, sub));
+            } else {
+                assert!(r.is_err(), "minus_seconds must abort when secs < s");
+            }
+            assert_eq!(t.plus_nanos(s).nanos(), a + s);
+            if a >= s { assert_eq!(t.minus_nanos(s).nanos(), a - s); }
+        }
+        for &b in ns.iter() {
+            let u = Timestamp::from_nanos(b);
+            assert_eq!(t.partial_cmp(&u), a.partial_cmp(&b));
+            assert_eq!(t == u, a == b);
+            assert_eq!(t <= u, a <= b);
+        }
+        assert_eq!(Timestamp::from_seconds(secs).nanos(), secs * 1_000_000_000);
+    }
+    assert_eq!(Timestamp::default().nanos(), 0);
+}
